@@ -603,6 +603,7 @@ type c14sess struct {
 	endedWhy    string
 	senderClose bool // some sender-role connection of it has closed
 	timerSeen   bool
+	hostPeer    string // the host: the peer id of the first sender-role connection of the session
 }
 
 type c14cl struct {
@@ -744,7 +745,7 @@ func (r *c14run) join(si int, peer, role string) *c14cl {
 	}
 	hostOpen := false
 	for _, c := range r.conns {
-		if c.sess == si && c.role == "sender" && c.open && !c.conn.isDead() {
+		if c.sess == si && c.role == "sender" && c.peer == s.hostPeer && c.open && !c.conn.isDead() {
 			hostOpen = true
 		}
 	}
@@ -755,6 +756,9 @@ func (r *c14run) join(si int, peer, role string) *c14cl {
 			r.viol("admits-after-end", fmt.Sprintf("join code of s%d admitted %s after the session ended (%s)", si, peer, s.endedWhy))
 		}
 		cl := &c14cl{h: h, conn: conn, sess: si, peer: peer, role: role, open: true, inHub: true}
+		if role == "sender" && s.hostPeer == "" {
+			s.hostPeer = peer
+		}
 		for _, o := range r.conns {
 			if o.sess == si && o.peer == peer && o.inHub {
 				o.inHub = false // replaced (last write wins); its socket stays open
@@ -813,13 +817,15 @@ func (r *c14run) closeConn(cl *c14cl) {
 	if cl.role == "sender" {
 		s := r.sess[cl.sess]
 		s.senderClose = true
+		// the session lives as long as its HOST is connected: another peer that merely calls
+		// itself a sender does not keep it alive (nor may its leaving end it)
 		other := false
 		for _, o := range r.conns {
-			if o != cl && o.sess == cl.sess && o.role == "sender" && o.open && !o.conn.isDead() {
+			if o != cl && o.sess == cl.sess && o.role == "sender" && o.peer == s.hostPeer && o.open && !o.conn.isDead() {
 				other = true
 			}
 		}
-		if !other && !s.ended {
+		if cl.peer == s.hostPeer && !other && !s.ended {
 			s.ended, s.endedWhy = true, "host disconnected"
 		}
 	}
@@ -905,6 +911,9 @@ func c14serverScript(rep *hx.Report, bin string, cfg c14cfg, rng *hx.Rand, caseI
 			if rng.Intn(4) == 0 {
 				// the host of a session always uses the same peer id: a second sender-role socket is a reconnect
 				role, peer = "sender", fmt.Sprintf("h%d", si)
+				if rng.Intn(6) == 0 && r.sess[si].hostPeer != "" {
+					peer = fmt.Sprintf("x%d", rng.Intn(3)) // somebody else who calls itself a sender
+				}
 			}
 			if r.join(si, peer, role) == nil {
 				closed++
@@ -1578,7 +1587,7 @@ func runC14(cfg config) *hx.Report {
 
 	// corpus: the forced schedules (a failure that gets fixed stays here and is reported again if it returns)
 	{
-		id1, id2, id3, id4, id5, id6, id7, id8, id9 := next(1), next(1), next(1), next(1), next(1), next(1), next(1), next(1), next(1)
+		id1, id2, id3, id4, id5, id6, id7, id8, id9, id10 := next(1), next(1), next(1), next(1), next(1), next(1), next(1), next(1), next(1), next(1)
 		c2 := c14cfg{2 + rng.Intn(2), 0, 0, hour}
 		k2 := 2 + rng.Intn(4)
 		c4 := c14cfg{0, 2 + rng.Intn(2), 8, hour}
@@ -1597,6 +1606,10 @@ func runC14(cfg config) *hx.Report {
 				return c14one(c14hostReconnect(rep, bin, c14cfg{0, 0, 0, hour}, true, id8))
 			},
 			func(rep *hx.Report) []c14out { return c14one(c14joinAfterEnd(rep, bin, c14cfg{0, 0, 0, hour}, id9)) },
+			// the host leaves while somebody else who calls itself a sender is attached: the code must die
+			func(rep *hx.Report) []c14out {
+				return c14one(c14hostReconnect(rep, bin, c14cfg{0, 0, 0, hour}, false, id10))
+			},
 		)
 	}
 	// sequential scripts over the configuration grid
